@@ -9,6 +9,35 @@ import PraatModel.Props.C11
 
 Theorems about `PraatModel/Zero.lean` for recordings of any length, any targets and steps (exact
 arithmetic; times in ticks of `1/(rate·m)` s, see `Zero.lean`).
+
+## hypotheses (audit)
+
+Every hypothesis of a registered theorem is one of:
+
+* **the encoding**: `0 < m` (ticks per sample; `m = 0` encodes no time at all).
+* **the domain of C16** for the byte level (`searchWav_*`, `getSamples_slice`, `spliceWav_region_samples`): a
+  recording made of whole samples (`C16.Whole`; otherwise `struct.error`, `C16.convert_ragged`), of a width
+  the library knows (1/2/4/8; otherwise `KeyError`, `C16.convert_unknown_width`; C18 quantifies over widths
+  1/2/4), with a positive frame rate (rate 0: `duration` itself and `Wav.open` raise `ZeroDivisionError`,
+  the `wave` module refuses to write such a file).  The step check needs none of them
+  (`searchWav_small_step`).  A recording with NO samples is covered (`empty_recording_error`).
+* **enforced by the code, the excluded case being a theorem**: `2·m ≤ step` (`search_small_step`:
+  `ArgumentError`); no interval straddles the insertion point (`splice_tier_straddler`: `CollisionError`);
+  `0 < d` (`splice_tier_empty_segment`); region start < end (`splice_region_reversed`); the search returns
+  for every boundary (`zcTier_I_search_error`); pairwise different tier names (`addTier` refuses a clash,
+  C12); `ITier.WF` / `PTier.WF` / `Stripped`: the invariants every constructor of the library establishes.
+* **the content of the statement**: `Flat` (no crossing), all-zero, the target on a sample position with room
+  to its right (`all_zero_end` shows both are needed), the fresh label of `splice_one_new`, "the textgrid
+  ended where the audio ended" of `splice_sync`.
+* **needed, and the real code misbehaves without it** (a `_counterexample` theorem each, replayed on the
+  code): a monotone, non-collapsing search in `zcTier_I_mono` (`tgBoundaries_collapse_counterexample`); an
+  insertion point inside the span (`splice_outside_counterexample`); a segment with the audio's rate and width
+  (`splice_segment_params_counterexample`); completeness of the search is not a hypothesis but is not a
+  theorem either (`incomplete_counterexample`).
+
+Removed by the audit: label already stripped (`splice_*`: the entry carries `pyStrip label`), insertion point
+inside the tier's span (`splice_tier_spec`, `splice_one_new`, `splice_tier_straddler`, `insertSpace_tier_hi`),
+"the first entry's start" in `zcTier_I_search_error` (now any boundary of any entry).
 -/
 
 open Audio Zero
@@ -572,10 +601,23 @@ theorem search_eq_loop (rd : Reader) (m : Nat) (hm : 0 < m) (dur target step : I
 /-- the duration of the list in ticks -/
 abbrev durOf (m : Nat) (xs : List Int) : Int := (xs.length : Int) * (m : Int)
 
-theorem searchList_small_step (m : Nat) (xs : List Int) (target step : Int) (h : step < 2 * (m : Int)) :
-    searchList m xs target step = .error .ArgumentError := by
-  unfold searchList search findFuel
+/-- **step too small → `ArgumentError`** (the case excluded by every hypothesis `2·m ≤ step` below): for
+EVERY reader — any `Wav`, made of whole samples or not, of any width and rate —, every duration, every
+target and every step shorter than two samples (zero and negative steps included) the call raises
+`ArgumentError`; the check precedes every read of the recording -/
+theorem search_small_step (rd : Reader) (m : Nat) (dur target step : Int) (h : step < 2 * (m : Int)) :
+    search rd m dur target step = .error .ArgumentError := by
+  unfold search findFuel
   rw [if_pos h]
+
+theorem searchList_small_step (m : Nat) (xs : List Int) (target step : Int) (h : step < 2 * (m : Int)) :
+    searchList m xs target step = .error .ArgumentError :=
+  search_small_step _ m _ target step h
+
+/-- the same at byte level, with no hypothesis on the `Wav` at all -/
+theorem searchWav_small_step (wv : Wav) (m : Nat) (target step : Int) (h : step < 2 * (m : Int)) :
+    searchWav wv m target step = .error .ArgumentError :=
+  search_small_step _ m _ target step h
 
 theorem searchList_loop (m : Nat) (hm : 0 < m) (xs : List Int) (target step : Int) (hs : 2 * (m : Int) ≤ step) :
     loop (listReader m xs) m (durOf m xs) target step (searchBound (durOf m xs) step)
@@ -713,8 +755,9 @@ theorem round_flat (m : Nat) (xs : List Int) (hf : Flat xs) (dur step a b : Int)
   unfold Zero.round
   rw [iter_flat m xs hf]; simp only; rw [iter_flat m xs hf]
 
-/-- **no crossing → the documented error**: on an all-positive (or all-negative) recording every call
-with an admissible step raises `FindZeroCrossingError`, never a value -/
+/-- **no crossing → the documented error**: on an all-positive (or all-negative) recording — the empty
+recording included — every call with an admissible step raises `FindZeroCrossingError`, never a value (a
+shorter step raises `ArgumentError` whatever the recording: `search_small_step`) -/
 theorem no_crossing_error (m : Nat) (hm : 0 < m) (xs : List Int) (hf : Flat xs) (target step : Int)
     (hs : 2 * (m : Int) ≤ step) :
     searchList m xs target step = .error .FindZeroCrossingError := by
@@ -736,6 +779,14 @@ theorem all_positive_error (m : Nat) (hm : 0 < m) (xs : List Int) (hpos : ∀ x 
     (hs : 2 * (m : Int) ≤ step) : searchList m xs target step = .error .FindZeroCrossingError :=
   no_crossing_error m hm xs (flat_of_pos xs hpos) target step hs
 
+/-- **a recording with no samples** (no hypothesis "non-empty" is needed anywhere above): duration 0, both
+cursors leave at once, every target and every admissible step raise `FindZeroCrossingError` — no division by
+zero, no endless loop.  On the code: `Wav(b'', [1, 2, 8, 0, …]).findNearestZeroCrossing(t, 0.25)` for
+`t = 0, 0.5, -1, 1e17`. -/
+theorem empty_recording_error (m : Nat) (hm : 0 < m) (target step : Int) (hs : 2 * (m : Int) ≤ step) :
+    searchList m [] target step = .error .FindZeroCrossingError :=
+  no_crossing_error m hm [] ⟨by simp, by intro a ha; cases ha⟩ target step hs
+
 /-! ## 11. (b, continued) A16, regression: far-away targets cost no more rounds than near ones -/
 
 /-- the round bound does not mention the target (before commit 0d5ac6f the loop needed
@@ -750,7 +801,9 @@ theorem searchBound_le (dur step : Int) (hs : 0 < step) (hd : 0 ≤ dur) :
 /-! ## 12. (e, continued) an all-zero recording -/
 
 /-- **all_zero**: on an all-zero recording a target on a sample position with room for one step to its
-right is returned itself -/
+right is returned itself.  `hk` and `hroom` are the statement (a negative target or a target beyond the end
+cannot be returned; without room the sample BEFORE the target is returned, or nothing: `all_zero_end`,
+`incomplete_counterexample`); `hs` is enforced by the code (`search_small_step`). -/
 theorem all_zero_target (m : Nat) (hm : 0 < m) (xs : List Int) (hz : ∀ x ∈ xs, x = 0) (k step : Int)
     (hk : 0 ≤ k) (hs : 2 * (m : Int) ≤ step) (hroom : k * (m : Int) + step < durOf m xs) :
     searchList m xs (k * (m : Int)) step = .ok (k * (m : Int)) := by
@@ -816,6 +869,37 @@ theorem all_zero_target (m : Nat) (hm : 0 < m) (xs : List Int) (hz : ∀ x ∈ x
   have hveq : v = k * (m : Int) := by omega
   rw [← hloop, hv, hveq]
 
+
+/-- a recording of 8 zero samples (rate 8, one tick per sample) -/
+def zeros8 : List Int := [0, 0, 0, 0, 0, 0, 0, 0]
+
+/-- **all_zero, the cases excluded by `all_zero_target`** (kernel-checked; the values are the ones the code
+returns): both hypotheses of `all_zero_target` on the target are needed for "returned itself".
+Without room for one step to the right the right-hand window is not opened and the left-hand window ends
+*before* the target: target = sample 7 (a zero sample) yields sample 6; target = the duration yields the
+last sample; beyond the duration likewise.  A negative target yields sample 0.  Every value is again a
+sample position in `[0, duration]` holding a zero (`result_on_grid`, `result_in_range`). -/
+theorem all_zero_end :
+    searchList 1 zeros8 5 2 = .ok 5 ∧ searchList 1 zeros8 6 2 = .ok 5 ∧ searchList 1 zeros8 7 2 = .ok 6 ∧
+    searchList 1 zeros8 8 2 = .ok 7 ∧ searchList 1 zeros8 100 2 = .ok 7 ∧
+    searchList 1 zeros8 0 2 = .ok 0 ∧ searchList 1 zeros8 (-1) 2 = .ok 0 := by decide
+
+/-- **the search is not complete** (NOT claimed by C18, whose text only constrains what is returned or raised;
+recorded because the hypotheses `Flat` of `no_crossing_error` and `hroom` of `all_zero_target` cannot be
+dropped).  `FindZeroCrossingError` ("no zero crossing found") is raised on recordings that do have
+genuine crossings — model and code agree on each line (rate 8, `timeStep` 0.25 s = 2 samples):
+* one sign change between samples 4 and 5, target exactly on sample 5: the left window ends before sample 5,
+  the right window starts at it, so no window ever holds both samples (every other target 0..20 yields 4);
+* a zero sample at the very end, target 0 — and target 5, the position of the zero sample itself: the last
+  `timeStep` of a recording is never scanned from the right;
+* an all-zero recording shorter than one step. -/
+theorem incomplete_counterexample :
+    (searchList 1 [5, 5, 5, 5, 5, -5, -5, -5, -5, -5, -5, -5, -5, -5, -5, -5, -5, -5, -5, -5] 5 2
+        = .error .FindZeroCrossingError ∧
+      Genuine [5, 5, 5, 5, 5, -5, -5, -5, -5, -5, -5, -5, -5, -5, -5, -5, -5, -5, -5, -5] 5) ∧
+    (searchList 1 [5, 5, 5, 5, 5, 0] 0 2 = .error .FindZeroCrossingError ∧
+      searchList 1 [5, 5, 5, 5, 5, 0] 5 2 = .error .FindZeroCrossingError ∧ Genuine [5, 5, 5, 5, 5, 0] 5) ∧
+    (searchList 1 [0, 0] 0 2 = .error .FindZeroCrossingError ∧ Genuine [0, 0] 0) := by decide
 
 /-! ## 13. the byte level: `Wav.getSamples` at *any* two times is a Python slice of the sample list -/
 
@@ -898,7 +982,9 @@ theorem wavReader_eq (wv : Wav) (hwv : C16.Whole wv) (hk : knownWidth wv.width =
   rw [getSamples_slice wv hwv hk, sampleAtTime_ticks wv.rate m hr hm, sampleAtTime_ticks wv.rate m hr hm]
 
 /-- **the search on an in-memory `Wav`** (bytes, any width in 1/2/4/8) is the search on its sample
-list; so every theorem above about `searchList` is a theorem about `searchWav` -/
+list; so every theorem above about `searchList` is a theorem about `searchWav`.  The three hypotheses on the
+`Wav` are the domain of C16 (see the header): whole samples, a known width, a positive rate; a `Wav` with no
+frames at all satisfies them. -/
 theorem searchWav_eq (wv : Wav) (hwv : C16.Whole wv) (hk : knownWidth wv.width = true) (hr : 0 < wv.rate)
     (m : Nat) (hm : 0 < m) (target step : Int) :
     searchWav wv m target step = searchList m wv.samples target step := by
@@ -939,17 +1025,55 @@ theorem spaceP_nostraddle (a d : Int) (iv : Iv Int) (hno : ¬ C08.Straddles a iv
   · rw [if_pos h1, if_pos h1]
   · rw [if_neg h1, if_neg h1, if_pos (by omega)]
 
-/-- **splice_spec (named tier)**: when no interval of the tier straddles the insertion point, the call
-succeeds and the tier then holds exactly: the entries that ended at or before the insertion point,
-unchanged; the new interval `[a, a+d]` with the given label; every later entry moved by exactly `d`
-with its label.  The tier stays well formed and its span grows by exactly `d`. -/
-theorem splice_tier_spec (t : ITier Int) (hwf : t.WF) (a d : Int) (hd : 0 < d) (hlo : t.lo ≤ a) (hhi : a ≤ t.hi)
-    (label : String) (hstr : pyStrip label = label) (hno : ∀ iv ∈ t.es, ¬ C08.Straddles a iv) :
+/-- `insertEntry` strips the label of the entry it is given before anything else -/
+theorem insertEntry_strip (t : ITier Int) (x : Iv Int) (mode : InsMode) :
+    t.insertEntry x mode = t.insertEntry ⟨x.s, x.e, pyStrip x.l⟩ mode := by
+  unfold ITier.insertEntry
+  simp only [pyStrip_idem]
+
+/-- `C08.insert_spec` for an insertion point anywhere (also before the tier's start: its hypothesis
+`t.lo ≤ s` is not used by its proof) -/
+theorem insertSpace_any (t : ITier Int) (hwf : t.WF) (s d : Int) (hd : 0 < d) (mode : SpaceMode)
+    (hm : mode = .error → ∀ iv ∈ t.es, ¬ C08.Straddles s iv) :
+    ∃ t', t.insertSpace s d mode = .ok t' ∧ t'.WF ∧ t'.name = t.name ∧
+      t'.es = t.es.flatMap (C08.spaceP s d mode) ∧ t'.lo = t.lo ∧ t'.hi = t.hi + d := by
+  have hw := C08.flatMap_spaceP_wf s d hd mode t.es hwf.pos hwf.disj hwf.stripped
+  obtain ⟨t', e1, e2, e3, e4, e5, e6⟩ :=
+    mkITier_wf t.name _ t.lo (t.hi + d) (by have := hwf.span; omega) hw.1 hw.2.1 hw.2.2
+  have hb : ∀ x ∈ t.es.flatMap (C08.spaceP s d mode), t.lo ≤ x.s ∧ x.e ≤ t.hi + d := by
+    intro x hx
+    obtain ⟨iv, hiv, hxp⟩ := List.mem_flatMap.1 hx
+    have p := C08.spaceP_props s d hd mode iv x (hwf.pos iv hiv) hxp
+    have := hwf.inLo iv hiv
+    have := hwf.inHi iv hiv
+    omega
+  refine ⟨t', ?_, e2, e4, e3, ?_, ?_⟩
+  · unfold ITier.insertSpace
+    rw [C08.spaceAll_eq s d mode t.es hm]
+    simp only [ITier.new, Option.getD_some, Option.getD_none]
+    exact e1
+  · rw [e5]; apply hullMin_eq_of_le
+    intro x hx; obtain ⟨z, hz, rfl⟩ := List.mem_map.1 hx; exact (hb z hz).1
+  · rw [e6]; apply hullMax_eq_of_ge
+    intro x hx; obtain ⟨z, hz, rfl⟩ := List.mem_map.1 hx; exact (hb z hz).2
+
+/-- **splice_spec (named tier)**: on a well-formed tier, for EVERY insertion point `a` that no interval of the
+tier straddles (inside the tier's span or not), every segment duration `d > 0` and every label (stripped by
+the tier, as every label is), the call succeeds and the tier then holds exactly: the entries that ended at
+or before the insertion point, unchanged; the new interval `[a, a+d]` with the given label; every later
+entry moved by exactly `d` with its label.  The tier stays well formed.  Its span: the start becomes
+`min(lo, a)`, the end `max(hi, a) + d` — so for an insertion point inside the span (`splice_tier_inside`) the
+span grows by exactly `d`, and for one outside it does NOT (`splice_outside_counterexample`).
+
+Hypotheses: `hwf` is the class invariant of every tier the library can build; `d > 0`: an empty segment
+raises (`splice_tier_empty_segment`); no straddler: otherwise `CollisionError` (`splice_tier_straddler`). -/
+theorem splice_tier_spec (t : ITier Int) (hwf : t.WF) (a d : Int) (hd : 0 < d)
+    (label : String) (hno : ∀ iv ∈ t.es, ¬ C08.Straddles a iv) :
     ∃ t2, spliceTier t a d label = .ok t2 ∧ t2.WF ∧ t2.name = t.name ∧
-      (∀ y, y ∈ t2.es ↔ (y ∈ t.es ∧ y.e ≤ a) ∨ y = ⟨a, a + d, label⟩ ∨
+      (∀ y, y ∈ t2.es ↔ (y ∈ t.es ∧ y.e ≤ a) ∨ y = ⟨a, a + d, pyStrip label⟩ ∨
         ∃ iv ∈ t.es, a ≤ iv.s ∧ y = ⟨iv.s + d, iv.e + d, iv.l⟩) ∧
-      t2.lo = t.lo ∧ t2.hi = t.hi + d := by
-  obtain ⟨t1, e1, wf1, n1, es1, lo1, hi1⟩ := C08.insert_spec t hwf a d hd .stretch (by intro h; cases h)
+      t2.lo = min t.lo a ∧ t2.hi = max t.hi a + d ∧ t2.es.length = t.es.length + 1 := by
+  obtain ⟨t1, e1, wf1, n1, es1, lo1, hi1⟩ := insertSpace_any t hwf a d hd .stretch (by intro h; cases h)
   have hmem1 : ∀ y, y ∈ t1.es ↔ (y ∈ t.es ∧ y.e ≤ a) ∨ ∃ iv ∈ t.es, a ≤ iv.s ∧ y = ⟨iv.s + d, iv.e + d, iv.l⟩ := by
     intro y
     rw [es1, List.mem_flatMap]
@@ -971,15 +1095,31 @@ theorem splice_tier_spec (t : ITier Int) (hwf : t.WF) (a d : Int) (hd : 0 < d) (
       · refine ⟨iv, hiv, ?_⟩
         have := hwf.pos iv hiv
         rw [spaceP_nostraddle a d iv (hno iv hiv), if_neg (by omega), hy]; simp
-  have hfree : ∀ iv ∈ t1.es, iv.e ≤ (⟨a, a + d, label⟩ : Iv Int).s ∨ (⟨a, a + d, label⟩ : Iv Int).e ≤ iv.s := by
+  have hlen1 : t1.es.length = t.es.length := by
+    rw [es1]
+    have : ∀ (l : List (Iv Int)), (∀ iv ∈ l, ¬ C08.Straddles a iv) →
+        (l.flatMap (C08.spaceP a d .stretch)).length = l.length := by
+      intro l
+      induction l with
+      | nil => intro _; rfl
+      | cons x xs ih =>
+        intro h
+        rw [List.flatMap_cons, List.length_append, ih (fun iv hiv => h iv (List.mem_cons_of_mem _ hiv)),
+          spaceP_nostraddle a d x (h x (by simp))]
+        split <;> simp <;> omega
+    exact this t.es hno
+  have hfree : ∀ iv ∈ t1.es, iv.e ≤ (⟨a, a + d, pyStrip label⟩ : Iv Int).s ∨
+      (⟨a, a + d, pyStrip label⟩ : Iv Int).e ≤ iv.s := by
     intro y hy
     rcases (hmem1 y).1 hy with ⟨_, h⟩ | ⟨iv, _, hs, rfl⟩
     · exact Or.inl h
     · exact Or.inr (by simp only; omega)
   obtain ⟨t2, e2, wf2, n2, mem2, lo2, hi2⟩ :=
-    C11.insert_nocollision_stripped t1 wf1 ⟨a, a + d, label⟩ (by simp only; omega) hstr .error hfree
-  refine ⟨t2, ?_, wf2, by rw [n2, n1], ?_, ?_, ?_⟩
-  · unfold spliceTier; rw [e1]; exact e2
+    C11.insert_nocollision_stripped t1 wf1 ⟨a, a + d, pyStrip label⟩ (by simp only; omega) (pyStrip_idem label) .error hfree
+  refine ⟨t2, ?_, wf2, by rw [n2, n1], ?_, ?_, ?_, ?_⟩
+  · unfold spliceTier; rw [e1]
+    show t1.insertEntry ⟨a, a + d, label⟩ .error = .ok t2
+    rw [insertEntry_strip]; exact e2
   · intro y
     rw [mem2 y, hmem1 y]
     constructor
@@ -991,19 +1131,67 @@ theorem splice_tier_spec (t : ITier Int) (hwf : t.WF) (a d : Int) (hd : 0 < d) (
       · exact Or.inl (Or.inl h)
       · exact Or.inr h
       · exact Or.inl (Or.inr h)
-  · rw [lo2, lo1]; simp only; omega
+  · rw [lo2, lo1]
   · rw [hi2, hi1]; simp only; omega
+  · -- exactly one entry more: both lists are duplicate-free and differ by the new entry
+    have hnd2 := nodup_of_wf _ wf2.pos wf2.disj.setDisj
+    have hnd1 := nodup_of_wf _ wf1.pos wf1.disj.setDisj
+    have hnew : (⟨a, a + d, pyStrip label⟩ : Iv Int) ∉ t1.es := by
+      intro hin
+      have := hfree _ hin
+      simp only at this; omega
+    have hp : t2.es.Perm ((⟨a, a + d, pyStrip label⟩ : Iv Int) :: t1.es) := by
+      rw [List.perm_ext_iff_of_nodup hnd2 (List.nodup_cons.2 ⟨hnew, hnd1⟩)]
+      intro y; rw [mem2 y, List.mem_cons]; exact Or.comm
+    rw [hp.length_eq, List.length_cons, hlen1]
 
-/-- **exactly one new interval**: if the label is not used on the tier, the new interval is the only
-entry carrying it -/
-theorem splice_one_new (t : ITier Int) (hwf : t.WF) (a d : Int) (hd : 0 < d) (hlo : t.lo ≤ a) (hhi : a ≤ t.hi)
-    (label : String) (hstr : pyStrip label = label) (hno : ∀ iv ∈ t.es, ¬ C08.Straddles a iv)
-    (hfresh : ∀ iv ∈ t.es, iv.l ≠ label) (t2 : ITier Int) (h : spliceTier t a d label = .ok t2) :
-    (⟨a, a + d, label⟩ : Iv Int) ∈ t2.es ∧ t2.es.Nodup ∧ ∀ y ∈ t2.es, y.l = label → y = ⟨a, a + d, label⟩ := by
-  obtain ⟨t2', e, wf2, _, mem2, _, _⟩ := splice_tier_spec t hwf a d hd hlo hhi label hstr hno
+/-- the usual case, an insertion point inside the tier's span: the span start is unchanged and the span end
+grows by exactly the duration of the segment -/
+theorem splice_tier_inside (t : ITier Int) (hwf : t.WF) (a d : Int) (hd : 0 < d) (hlo : t.lo ≤ a) (hhi : a ≤ t.hi)
+    (label : String) (hno : ∀ iv ∈ t.es, ¬ C08.Straddles a iv) :
+    ∃ t2, spliceTier t a d label = .ok t2 ∧ t2.WF ∧ t2.lo = t.lo ∧ t2.hi = t.hi + d := by
+  obtain ⟨t2, e, wf2, _, _, lo2, hi2, _⟩ := splice_tier_spec t hwf a d hd label hno
+  exact ⟨t2, e, wf2, by rw [lo2]; omega, by rw [hi2]; omega⟩
+
+/-- **an insertion point outside the tier's span is accepted** (`audioSplice` checks nothing, and neither does
+`insertSpace`): no error, and the named tier's span then grows by MORE than the segment — beyond the end the
+tier ends at `a + d`, later than the textgrid (whose end is `old end + d`) and than the audio (into which
+the segment is inserted at its clamped end, `len + segment`); before the start the tier starts at `a`,
+earlier than the textgrid, and the audio side reads the negative time as a Python index from the end.
+The returned textgrid is not valid (`validate()` is False: tier and textgrid spans differ) and the new
+interval does not cover the inserted audio.  On the code (rate 8, 100 samples = 12.5 s, tier `T`
+`[1.25,3.75] a, [3.75,7.5] b, [10,11.25] c`, segment 5 samples = 0.625 s, no alignment):
+`insertStart = 13.0` → `T` ends at 13.625, textgrid and audio at 13.125;
+`insertStart = -1.0` → `T` spans `[-1, 13.125]`, new interval `[-1, -0.375]`, the segment sits 8 samples
+before the END of the audio.  The model returns the same values (`#guard`s at the end of the file). -/
+theorem splice_outside_counterexample (t : ITier Int) (hwf : t.WF) (a d : Int) (hd : 0 < d) (label : String) :
+    (t.hi < a → ∃ t2, spliceTier t a d label = .ok t2 ∧ t2.hi = a + d ∧ t.hi + d < t2.hi) ∧
+    (a < t.lo → ∃ t2, spliceTier t a d label = .ok t2 ∧ t2.lo = a ∧ t2.lo < t.lo ∧
+      (⟨a, a + d, pyStrip label⟩ : Iv Int) ∈ t2.es) := by
+  constructor
+  · intro h
+    have hno : ∀ iv ∈ t.es, ¬ C08.Straddles a iv := by
+      intro iv hiv hs; have := hwf.inHi iv hiv; unfold C08.Straddles at hs; omega
+    obtain ⟨t2, e, _, _, _, _, hi2, _⟩ := splice_tier_spec t hwf a d hd label hno
+    exact ⟨t2, e, by rw [hi2]; omega, by rw [hi2]; omega⟩
+  · intro h
+    have hno : ∀ iv ∈ t.es, ¬ C08.Straddles a iv := by
+      intro iv hiv hs; have := hwf.inLo iv hiv; unfold C08.Straddles at hs; omega
+    obtain ⟨t2, e, _, _, mem2, lo2, _, _⟩ := splice_tier_spec t hwf a d hd label hno
+    exact ⟨t2, e, by rw [lo2]; omega, by rw [lo2]; omega, (mem2 _).2 (Or.inr (Or.inl rfl))⟩
+
+/-- **exactly one new interval**: the tier has exactly one entry more than before (`splice_tier_spec`), and if
+the (stripped) label is not used on the tier — the only reading under which "the interval with the given
+label" identifies an entry — the new interval is the only entry carrying it -/
+theorem splice_one_new (t : ITier Int) (hwf : t.WF) (a d : Int) (hd : 0 < d)
+    (label : String) (hno : ∀ iv ∈ t.es, ¬ C08.Straddles a iv)
+    (hfresh : ∀ iv ∈ t.es, iv.l ≠ pyStrip label) (t2 : ITier Int) (h : spliceTier t a d label = .ok t2) :
+    (⟨a, a + d, pyStrip label⟩ : Iv Int) ∈ t2.es ∧ t2.es.Nodup ∧ t2.es.length = t.es.length + 1 ∧
+      ∀ y ∈ t2.es, y.l = pyStrip label → y = ⟨a, a + d, pyStrip label⟩ := by
+  obtain ⟨t2', e, wf2, _, mem2, _, _, hlen⟩ := splice_tier_spec t hwf a d hd label hno
   rw [h] at e
   cases e
-  refine ⟨(mem2 _).2 (Or.inr (Or.inl rfl)), nodup_of_wf _ wf2.pos wf2.disj.setDisj, ?_⟩
+  refine ⟨(mem2 _).2 (Or.inr (Or.inl rfl)), nodup_of_wf _ wf2.pos wf2.disj.setDisj, hlen, ?_⟩
   intro y hy hl
   rcases (mem2 y).1 hy with ⟨h1, _⟩ | h1 | ⟨iv, hiv, _, rfl⟩
   · exact absurd hl (hfresh y h1)
@@ -1011,19 +1199,39 @@ theorem splice_one_new (t : ITier Int) (hwf : t.WF) (a d : Int) (hd : 0 < d) (hl
   · exact absurd hl (hfresh iv hiv)
 
 /-- an insertion point strictly inside an interval of the named tier: the stretched interval collides
-with the new entry and the call raises `CollisionError` (nothing is returned) -/
-theorem splice_tier_straddler (t : ITier Int) (hwf : t.WF) (a d : Int) (hd : 0 < d) (hlo : t.lo ≤ a)
-    (label : String) (hstr : pyStrip label = label) (iv : Iv Int) (hiv : iv ∈ t.es) (hs : C08.Straddles a iv) :
+with the new entry and the call raises `CollisionError` (nothing is returned; on the code the caller's
+`audioObj` has by then already received the segment — see the note on mutation at the end of this section) -/
+theorem splice_tier_straddler (t : ITier Int) (hwf : t.WF) (a d : Int) (hd : 0 < d)
+    (label : String) (iv : Iv Int) (hiv : iv ∈ t.es) (hs : C08.Straddles a iv) :
     spliceTier t a d label = .error .CollisionError := by
-  obtain ⟨t1, e1, wf1, _, es1, _, _⟩ := C08.insert_spec t hwf a d hd .stretch (by intro h; cases h)
+  obtain ⟨t1, e1, wf1, _, es1, _, _⟩ := insertSpace_any t hwf a d hd .stretch (by intro h; cases h)
   have hm : (⟨iv.s, iv.e + d, iv.l⟩ : Iv Int) ∈ t1.es := by
     rw [es1, List.mem_flatMap]
     refine ⟨iv, hiv, ?_⟩
     unfold C08.spaceP C08.Straddles at *
     rw [if_neg (by omega), if_neg (by omega)]; simp
   unfold spliceTier; rw [e1]
-  exact C11.insert_error_stripped t1 wf1 ⟨a, a + d, label⟩ (by simp only; omega) hstr _ hm
+  show t1.insertEntry ⟨a, a + d, label⟩ .error = .error .CollisionError
+  rw [insertEntry_strip]
+  exact C11.insert_error_stripped t1 wf1 ⟨a, a + d, pyStrip label⟩ (by simp only; omega) (pyStrip_idem label) _ hm
     (by unfold C08.Straddles at hs; simp only; omega)
+
+/-- **an empty segment** (`d = 0`; the case excluded by `0 < d`; a negative `d` does not occur, `d` is a
+duration): the call raises — `insertEntry((t, t, label))` is rejected with `ArgumentError` (the code:
+"Crop error: start time must occur before end time") unless `insertSpace` has already raised -/
+theorem splice_tier_empty_segment (t : ITier Int) (a d : Int) (hd : d ≤ 0) (label : String) :
+    ∃ e, spliceTier t a d label = .error e ∧
+      ∀ t1, t.insertSpace a d .stretch = .ok t1 → e = .ArgumentError := by
+  unfold spliceTier
+  cases h : t.insertSpace a d .stretch with
+  | error e => exact ⟨e, rfl, by intro t1 h'; cases h'⟩
+  | ok t1 =>
+    refine ⟨.ArgumentError, ?_, fun _ _ => rfl⟩
+    show t1.insertEntry ⟨a, a + d, label⟩ .error = .error .ArgumentError
+    unfold ITier.insertEntry ITier.crop
+    simp only
+    rw [if_pos (by omega)]
+    rfl
 
 /-! ### textgrid level -/
 
@@ -1099,6 +1307,36 @@ theorem splice_region (g : Tg Int) (name label : String) (a b d : Int) :
     simp only
     cases insertIntoTier g2 name ⟨b, b + d, label⟩ <;> rfl
 
+/-- **a replaced region that is empty or reversed** (`insertStop ≤ insertStart`; nothing in `audioSplice`
+checks the order): the call raises, with `ArgumentError` from `eraseRegion` ("start time must occur
+before end time") unless the splice itself has already raised.  On the code the exception comes after
+`audioObj.insert` AND `audioObj.deleteSegment(insertStart, insertStop)` have run on the caller's object —
+with a reversed region `frames[:i] + frames[j:]`, `i > j`, *duplicates* audio (100 samples + 5 inserted
+→ 135) — see the note on mutation below. -/
+theorem splice_region_reversed (g : Tg Int) (name label : String) (a b d : Int) (h : b ≤ a) :
+    ∃ e, spliceTg g [] name label a (some b) d = .error e ∧
+      ∀ g3, spliceTg g [] name label b none d = .ok g3 → e = .ArgumentError := by
+  rw [splice_region]
+  cases h3 : spliceTg g [] name label b none d with
+  | error e => exact ⟨e, rfl, by intro g3 h'; cases h'⟩
+  | ok g3 =>
+    refine ⟨.ArgumentError, ?_, fun _ _ => rfl⟩
+    show g3.eraseRegion a b true = .error .ArgumentError
+    unfold Tg.eraseRegion
+    rw [if_pos h]
+
+/-- **alignToZeroCrossing = True** is the unaligned splice of the textgrid on which the `_shiftTimes` calls
+have been made (one per aligned boundary: old time ↦ its crossing), at the aligned times and with the
+duration of the cut segment; so every theorem of this section applies to the shifted textgrid.  (An
+error of `_shiftTimes` — it inserts the moved entries with `collisionMode='error'`, "no checks are done" —
+is the error of the call.) -/
+theorem splice_aligned (g : Tg Int) (shifts : List (Int × Int)) (name label : String) (a : Int)
+    (stop : Option Int) (d : Int) :
+    spliceTg g shifts name label a stop d =
+      (shifts.foldlM (fun acc p => shiftTimes acc p.1 p.2) g >>= fun g1 => spliceTg g1 [] name label a stop d) := by
+  unfold spliceTg
+  simp only [List.foldlM_nil, bind, Except.bind, pure, Except.pure]
+
 /-- folding `addTier` keeps the span end when no added tier reaches beyond it -/
 theorem foldlM_addTier_hi (f : AnyTier Int → Except Err (AnyTier Int)) (rep : Report) (H : Int) :
     ∀ (l : List (AnyTier Int)) (acc g' : Tg Int),
@@ -1143,9 +1381,19 @@ theorem spliceWav_length (wv : Wav) (seg : List UInt8) (a : QTime) :
   unfold spliceWav Wav.insert
   exact insertB_length _ _ _
 
+/-- the textgrid's end after a splice without replaced region: the old end plus `d`, whatever `d` is -/
+theorem splice_span (g g' : Tg Int) (name label : String) (a d H : Int) (hH : g.hi = some H)
+    (hts : ∀ t t', t ∈ g.tiers → t.insertSpace a d .stretch = .ok t' → t'.hi ≤ H + d)
+    (h : spliceTg g [] name label a none d = .ok g') : g'.hi = some (H + d) := by
+  obtain ⟨g2, ts, h2, _, hhi, _⟩ := splice_spec g g' name label a _ h
+  rw [hhi, insertSpace_hi g g2 a _ _ .stretch hH h2 hts]
+
 /-- **durations agree** (no replaced region): measure time in byte durations `1/(rate·width)` s.  If the
 textgrid ends where the audio ends and `d` is the duration of the segment, then after the splice the
-textgrid again ends exactly where the audio ends. -/
+textgrid again ends exactly where the audio ends — for every insertion point.  `hH` is the statement (they
+cannot agree afterwards if they did not before: `splice_span` gives the end for any `H`), `hts` holds for
+every valid textgrid (`insertSpace_tier_hi`), and `d = seg.length` says that the segment is measured with the
+audio's own rate and width (`splice_segment_params_counterexample` otherwise). -/
 theorem splice_sync (g g' : Tg Int) (name label : String) (a : Int) (wv : Wav) (seg : List UInt8) (qa : QTime)
     (hH : g.hi = some (wv.frames.length : Int))
     (hts : ∀ t t', t ∈ g.tiers → t.insertSpace a (seg.length : Int) .stretch = .ok t' →
@@ -1155,27 +1403,73 @@ theorem splice_sync (g g' : Tg Int) (name label : String) (a : Int) (wv : Wav) (
   obtain ⟨g2, ts, h2, _, hhi, _⟩ := splice_spec g g' name label a _ h
   rw [hhi, insertSpace_hi g g2 a _ _ .stretch hH h2 hts, spliceWav_length, Int.natCast_add]
 
-/-- the hypothesis of `splice_sync` on the tiers holds for well-formed tiers inside the textgrid's span -/
+/-- **`d` must be the duration of the segment in the audio's own units** — the hypothesis hidden in
+`splice_sync`'s use of `seg.length` for `d`.  `audioSplice` takes `d = spliceSegment.duration`, computed with
+the SEGMENT's frame rate and sample width, and inserts the segment's raw bytes into `audioObj`; nothing
+checks that the two `Wav`s have the same parameters.  Whenever they differ, `d ≠ seg.length` (in byte
+durations of the audio) and the returned audio and textgrid are out of step by exactly `d - seg.length`:
+no error is raised.  On the code (audio rate 8, 100 samples; segment 5 samples): segment at rate 16 →
+textgrid ends at 12.8125 s, audio at 13.125 s (2.5 samples apart); segment of width 1 → textgrid 13.125 s,
+audio 12.8125 s, and the audio has an odd number of bytes (`getSamples` then raises `struct.error`). -/
+theorem splice_segment_params_counterexample (g g' : Tg Int) (name label : String) (a d : Int) (wv : Wav)
+    (seg : List UInt8) (qa : QTime) (hH : g.hi = some (wv.frames.length : Int))
+    (hts : ∀ t t', t ∈ g.tiers → t.insertSpace a d .stretch = .ok t' → t'.hi ≤ (wv.frames.length : Int) + d)
+    (hd : d ≠ (seg.length : Int))
+    (h : spliceTg g [] name label a none d = .ok g') :
+    g'.hi ≠ some (((spliceWav wv seg qa none).frames.length : Nat) : Int) := by
+  rw [splice_span g g' name label a d _ hH hts h, spliceWav_length, Int.natCast_add]
+  intro he
+  simp only [Option.some.injEq] at he
+  omega
+
+/-- `C08.pinsert_spec` for an insertion point anywhere (its hypothesis `t.lo ≤ s` is not used by its proof) -/
+theorem pinsertSpace_any (t : PTier Int) (hwf : t.WF) (s d : Int) (hd : 0 < d) :
+    ∃ t', t.insertSpace s d = .ok t' ∧ t'.WF ∧ t'.hi = t.hi + d := by
+  have hsorted : (t.ps.map (fun p => if p.t ≤ s then p else (⟨p.t + d, p.l⟩ : Pt Int))).Pairwise
+      (fun a b => Pt.le a b = true) := by
+    rw [List.pairwise_map]
+    refine hwf.sorted.imp ?_
+    intro a b hab
+    have := Pt.le_time hab
+    simp only [Pt.le] at hab ⊢
+    by_cases ha : a.t ≤ s <;> by_cases hb : b.t ≤ s <;> simp only [ha, hb, if_true, if_false] <;> grind
+  obtain ⟨t', e1, e2, _, _, _, e6⟩ := mkPTier_wf t.name _ t.lo (t.hi + d) hsorted
+    (by intro p hp; obtain ⟨q, hq, rfl⟩ := List.mem_map.1 hp
+        have := hwf.stripped q hq; split <;> simpa using this)
+    (by intro p hp; obtain ⟨q, hq, rfl⟩ := List.mem_map.1 hp
+        have := hwf.inLo q hq; split <;> first | omega | (simp only; omega))
+    (by intro p hp; obtain ⟨q, hq, rfl⟩ := List.mem_map.1 hp
+        have := hwf.inHi q hq; split <;> first | omega | (simp only; omega))
+    (by have := hwf.span; omega)
+  exact ⟨t', by simpa [PTier.insertSpace, PTier.new] using e1, e2, e6⟩
+
+/-- the hypothesis `hts` of `splice_sync` / `splice_span` holds for every well-formed tier that ends at or
+before the textgrid's end `H` (the class invariants of a valid textgrid), for EVERY insertion point `a`
+(inside the tier's span or not) and every segment duration `d > 0` -/
 theorem insertSpace_tier_hi (t : AnyTier Int) (t' : AnyTier Int) (a d H : Int) (hd : 0 < d)
-    (hwf : match t with | .I it => it.WF | .P pt => pt.WF) (hlo : t.lo ≤ a) (hH : t.hi ≤ H)
+    (hwf : match t with | .I it => it.WF | .P pt => pt.WF) (hH : t.hi ≤ H)
     (h : t.insertSpace a d .stretch = .ok t') : t'.hi ≤ H + d := by
   cases t with
   | I it =>
     obtain ⟨z, hz, rfl⟩ := C12.map_ok h
-    obtain ⟨t1, e1, _, _, _, _, hi1⟩ := C08.insert_spec it hwf a d hd .stretch (by intro h; cases h)
+    obtain ⟨t1, e1, _, _, _, _, hi1⟩ := insertSpace_any it hwf a d hd .stretch (by intro h; cases h)
     rw [hz] at e1; cases e1
     show z.hi ≤ H + d
     rw [hi1]; have : it.hi ≤ H := hH; omega
   | P pt =>
     obtain ⟨z, hz, rfl⟩ := C12.map_ok h
-    obtain ⟨t1, e1, _, _, _, _, hi1⟩ := C08.pinsert_spec pt hwf a d hd
+    obtain ⟨t1, e1, _, hi1⟩ := pinsertSpace_any pt hwf a d hd
     have hz' : pt.insertSpace a d = .ok z := hz
     rw [hz'] at e1; cases e1
     show z.hi ≤ H + d
     rw [hi1]; have : pt.hi ≤ H := hH; omega
 
 /-- the audio after a splice with a replaced region `[a, b]`: the samples before `a`, the segment, the
-samples from `b` on — every other sample keeps value and order -/
+samples from `b` on — every other sample keeps value and order.  Hypotheses: whole samples (C16's domain);
+a segment of whole samples of the audio's width (`hseg`; nothing in the code checks it:
+`splice_segment_params_counterexample`); both times inside the recording (a time outside is accepted by the
+code and read as a clamped or negative Python index: `splice_outside_counterexample`); start ≤ end (a
+reversed region raises, `splice_region_reversed`, after it has duplicated audio in the caller's object). -/
 theorem spliceWav_region_samples (wv : Wav) (hwv : C16.Whole wv) (seg : List UInt8) (hseg : wv.width ∣ seg.length)
     (a b : QTime) (ha : C16.InDur wv a) (hb : C16.InDur wv b)
     (hab : sampleAtTime a wv.rate ≤ sampleAtTime b wv.rate) :
@@ -1213,6 +1507,22 @@ theorem spliceWav_region_samples (wv : Wav) (hwv : C16.Whole wv) (seg : List UIn
     List.drop_left' htl, List.append_assoc]
 
 
+/-! ### note on mutation (what the functional model cannot show; replayed on the class)
+
+`audioSplice` copies the textgrid first (`retTG = tg.new()`; the caller's textgrid is never touched) but
+NOT the audio: `audioObj.insert(...)` and `audioObj.deleteSegment(...)` edit the caller's `Wav` in place
+and the same object is returned.  On success this is the documented result ("the audio to splice into").
+The in-place `insert` however runs BEFORE every check of the textgrid half, so each raising case proved
+above — `CollisionError` (`splice_tier_straddler`), `ArgumentError` of an empty or reversed region
+(`splice_region_reversed`: there `deleteSegment` has run too and a reversed region has duplicated audio),
+`KeyError` for an unknown tier name, the error for a point tier — leaves the caller's `Wav` longer by the
+segment while no textgrid is returned: the caller's audio and textgrid are out of step afterwards.  (An
+empty segment, `splice_tier_empty_segment`, changes nothing: inserting no bytes.)  `audioSplice` is not among
+the operations C13 lists, and C18's sentence is about the returned pair; the finding is reported, not
+claimed.  `tgBoundariesToZeroCrossings` likewise edits the textgrid it is given (`tg.replaceTier`, returns
+the same object); when it raises on a later tier (`zcTier_I_collapse`, `zcTier_I_search_error`) the tiers
+before it have already been replaced. -/
+
 /-! ## 15. (g) `tgBoundariesToZeroCrossings`: only timestamps change -/
 
 /-- a search that always returns (the abstract `zc : time → time` map) -/
@@ -1249,7 +1559,9 @@ theorem stripped_map_mvIv (zc : Int → Int) (es : List (Iv Int)) (hs : Stripped
 
 /-- **tgBoundaries_spec (interval tier, order-preserving search)**: if `zc` is monotone and collapses no
 interval, the new tier is well formed and its entries are the old ones, in the same order, with the
-same labels, each boundary replaced by its crossing -/
+same labels, each boundary replaced by its crossing.  Both hypotheses on `zc` are needed and the real search
+satisfies neither in general: otherwise the call raises (`zcTier_I_collapse`,
+`tgBoundaries_collapse_counterexample`). -/
 theorem zcTier_I_mono (zc : Int → Int) (hmono : ∀ x y, x ≤ y → zc x ≤ zc y) (t : ITier Int) (hwf : t.WF)
     (hpos : ∀ iv ∈ t.es, zc iv.s < zc iv.e) :
     ∃ t', zcTier (okz zc) (.I t) = .ok (.I t') ∧ t'.WF ∧ t'.name = t.name ∧ t'.es = t.es.map (mvIv zc) := by
@@ -1331,6 +1643,93 @@ theorem zcTier_I_ok (zc : Int → Int) (t : ITier Int) (hstr : Stripped t.es) :
     · rw [hes, ← hlab]; exact hperm.map _
   · intro e he
     exact mkITier_some_err (C12.map_err he)
+
+/-- the tier constructor rejects an entry list holding an interval that is empty or turned around, wherever
+sorting puts it (`IntervalTier._validate`: "The start time of an interval cannot occur after its end time") -/
+theorem mkITier_not_pos (name : String) (es : List (Iv Int)) (lo hi : Int) (iv : Iv Int) (hiv : iv ∈ es)
+    (hbad : iv.e ≤ iv.s) : mkITier name es (some lo) (some hi) = .error .TextgridStateError := by
+  unfold mkITier
+  simp only [Option.toList_some, pyMinList_append_single, pyMaxList_append_single]
+  have : ivsAllPos (sortIvs (es.map fun iv => ({ iv with l := pyStrip iv.l } : Iv Int))) = false := by
+    cases h : ivsAllPos (sortIvs (es.map fun iv => ({ iv with l := pyStrip iv.l } : Iv Int))) with
+    | false => rfl
+    | true =>
+      exfalso
+      have hp := (ivsAllPos_iff _).1 h
+      have hm : ({ iv with l := pyStrip iv.l } : Iv Int) ∈
+          sortIvs (es.map fun iv => ({ iv with l := pyStrip iv.l } : Iv Int)) :=
+        (sortIvs_perm _).mem_iff.2 (List.mem_map_of_mem hiv)
+      have := hp _ hm
+      simp only at this
+      omega
+  rw [this]
+  rfl
+
+/-- **an interval whose two boundaries are sent to the same crossing, or past each other, makes the whole
+call raise** `TextgridStateError` (the case excluded by `hpos`/`hmono` of `zcTier_I_mono`; nothing is dropped,
+nothing is returned) — for any search `zc` that returns for every boundary of the tier -/
+theorem zcTier_I_collapse (zc : Int → Except Err Int) (t : ITier Int) (es' : List (Iv Int))
+    (hok : t.es.mapM (zcIv zc) = .ok es') (iv : Iv Int) (hiv : iv ∈ es') (hbad : iv.e ≤ iv.s) :
+    zcTier zc (.I t) = .error .TextgridStateError := by
+  simp only [zcTier]
+  rw [hok]
+  show (AnyTier.I <$> mkITier t.name es' (some t.lo) (some t.hi)) = _
+  rw [mkITier_not_pos t.name es' t.lo t.hi iv hiv hbad]
+  rfl
+
+/-- the same for a search abstracted as a total map -/
+theorem zcTier_I_collapse_okz (zc : Int → Int) (t : ITier Int) (iv : Iv Int) (hiv : iv ∈ t.es)
+    (hbad : zc iv.e ≤ zc iv.s) : zcTier (okz zc) (.I t) = .error .TextgridStateError := by
+  rw [zcTier_I, mkITier_not_pos t.name _ t.lo t.hi (mvIv zc iv) (List.mem_map_of_mem hiv) hbad]
+  rfl
+
+/-- one sign change, between samples 4 and 5 (20 samples; rate 1000 on the code, so that the default
+`timeStep` 0.002 s is 2 samples) -/
+def exOneCrossing : List Int := [5, 5, 5, 5, 5, -5, -5, -5, -5, -5, -5, -5, -5, -5, -5, -5, -5, -5, -5, -5]
+/-- a sign change between samples 2 and 3 and a zero at sample 7 -/
+def exZeroAndChange : List Int := [5, 5, 5, -5, -5, -5, -5, 0, -5, -5, -5, -5, -5, -5, -5, -5, -5, -5, -5, -5]
+
+/-- **the real zero-crossing map is neither injective nor monotone on sample positions**, so the hypotheses of
+`zcTier_I_mono` do fail on real recordings, and `tgBoundariesToZeroCrossings` then RAISES instead of
+"keeping every tier's entry count and labels" (C18's wording):
+* `exOneCrossing`: samples 2 and 3 are both sent to sample 4; a tier holding the interval `[2, 3]` makes
+  the call raise `TextgridStateError` ("The start time of an interval (0.004) cannot occur after its end
+  time (0.004)");
+* `exZeroAndChange`: a zero is preferred to a nearer sign change inside one window, so sample 3 is sent
+  to 7 and sample 4 to 2; the interval `[3, 4]` would become `[7, 2]`: `TextgridStateError` again.
+The same through the textgrid-level function.  On the code: `Wav` of these samples at rate 1000,
+`Textgrid(0, 0.02)` with `IntervalTier('T', [(0.002, 0.003, 'a')], 0, 0.02)`, resp. `(0.003, 0.004, 'a')`,
+`tgBoundariesToZeroCrossings(tg, wav)`. -/
+theorem tgBoundaries_collapse_counterexample (t : ITier Int) (l : String) (lo hi : Option Int) (ap : Bool) :
+    (searchList 1 exOneCrossing 2 2 = .ok 4 ∧ searchList 1 exOneCrossing 3 2 = .ok 4 ∧
+      (t.es = [⟨2, 3, l⟩] →
+        zcTier (fun x => searchList 1 exOneCrossing x 2) (.I t) = .error .TextgridStateError ∧
+        tgBoundaries (fun x => searchList 1 exOneCrossing x 2) ⟨[.I t], lo, hi⟩ ap true =
+          .error .TextgridStateError)) ∧
+    (searchList 1 exZeroAndChange 3 2 = .ok 7 ∧ searchList 1 exZeroAndChange 4 2 = .ok 2 ∧
+      (t.es = [⟨3, 4, l⟩] →
+        zcTier (fun x => searchList 1 exZeroAndChange x 2) (.I t) = .error .TextgridStateError ∧
+        tgBoundaries (fun x => searchList 1 exZeroAndChange x 2) ⟨[.I t], lo, hi⟩ ap true =
+          .error .TextgridStateError)) := by
+  have a1 : searchList 1 exOneCrossing 2 2 = .ok 4 := by decide
+  have a2 : searchList 1 exOneCrossing 3 2 = .ok 4 := by decide
+  have b1 : searchList 1 exZeroAndChange 3 2 = .ok 7 := by decide
+  have b2 : searchList 1 exZeroAndChange 4 2 = .ok 2 := by decide
+  have tg : ∀ (zc : Int → Except Err Int), zcTier zc (.I t) = .error .TextgridStateError →
+      tgBoundaries zc ⟨[.I t], lo, hi⟩ ap true = .error .TextgridStateError := by
+    intro zc hz
+    simp only [tgBoundaries, List.foldlM_cons, zcStep, zcSkips, AnyTier.isInterval,
+      Bool.not_true, Bool.and_false, Bool.false_or, Bool.false_and, Bool.false_eq_true,
+      if_false, hz, bind, Except.bind]
+  refine ⟨⟨a1, a2, fun hes => ?_⟩, ⟨b1, b2, fun hes => ?_⟩⟩
+  · have hz := zcTier_I_collapse (fun x => searchList 1 exOneCrossing x 2) t [⟨4, 4, l⟩]
+      (by rw [hes]; simp only [List.mapM_cons, List.mapM_nil, zcIv, a1, a2, bind, Except.bind, pure, Except.pure])
+      ⟨4, 4, l⟩ (by simp) (by simp)
+    exact ⟨hz, tg _ hz⟩
+  · have hz := zcTier_I_collapse (fun x => searchList 1 exZeroAndChange x 2) t [⟨7, 2, l⟩]
+      (by rw [hes]; simp only [List.mapM_cons, List.mapM_nil, zcIv, b1, b2, bind, Except.bind, pure, Except.pure])
+      ⟨7, 2, l⟩ (by simp) (by simp)
+    exact ⟨hz, tg _ hz⟩
 
 /-- **tgBoundaries_spec (point tier)**: the new point tier always exists; its points are the old ones at
 their crossings, re-sorted (points that move past each other swap places), labels and count kept -/
@@ -1465,14 +1864,51 @@ theorem tgBoundaries_spec (zc : Int → Except Err Int) (g g' : Tg Int) (ap ai :
   · rw [e1]
     exact e2.map_eq (·.isInterval) (fun a b hr => (zcRel_name hr).2)
 
-/-- an error of the search for some boundary is the error of the whole call (nothing is "left
-unchanged when no crossing is found": the exception propagates) -/
-theorem zcTier_I_search_error (zc : Int → Except Err Int) (t : ITier Int) (iv : Iv Int) (rest : List (Iv Int)) (e : Err)
-    (hes : t.es = iv :: rest) (hz : zc iv.s = .error e) : zcTier zc (.I t) = .error e := by
-  simp only [zcTier]
-  rw [hes, List.mapM_cons]
-  unfold zcIv
-  rw [hz]; rfl
+theorem mapM_error_of_mem {β γ : Type} (f : β → Except Err γ) :
+    ∀ (l : List β), (∃ x ∈ l, ∃ e, f x = .error e) → ∃ e, l.mapM f = .error e ∧ ∃ x ∈ l, f x = .error e := by
+  intro l
+  induction l with
+  | nil => rintro ⟨x, hx, _⟩; cases hx
+  | cons a l ih =>
+    rintro ⟨x, hx, e, he⟩
+    rw [List.mapM_cons]
+    cases ha : f a with
+    | error e' => exact ⟨e', rfl, a, by simp, ha⟩
+    | ok b =>
+      have hx' : x ∈ l := by
+        rcases List.mem_cons.1 hx with rfl | h
+        · rw [ha] at he; cases he
+        · exact h
+      obtain ⟨e', h1, y, hy, h2⟩ := ih ⟨x, hx', e, he⟩
+      refine ⟨e', ?_, y, List.mem_cons_of_mem _ hy, h2⟩
+      simp only [bind, Except.bind, h1]
+
+/-- an error of the search for ANY boundary of ANY entry is an error of the whole call — the error of the
+first boundary, in entry order, whose search raises (nothing is "left unchanged when no crossing is found":
+the exception propagates; e.g. `FindZeroCrossingError` for a boundary lying exactly on an isolated sign
+change, `incomplete_counterexample`) -/
+theorem zcTier_I_search_error (zc : Int → Except Err Int) (t : ITier Int) (iv : Iv Int) (hiv : iv ∈ t.es)
+    (hz : (∃ e, zc iv.s = .error e) ∨ (∃ e, zc iv.e = .error e)) :
+    ∃ e, zcTier zc (.I t) = .error e ∧ ∃ iv' ∈ t.es, zc iv'.s = .error e ∨ zc iv'.e = .error e := by
+  have hiverr : ∃ e, zcIv zc iv = .error e := by
+    unfold zcIv
+    cases hs : zc iv.s with
+    | error e => exact ⟨e, rfl⟩
+    | ok s' =>
+      rcases hz with ⟨e, he⟩ | ⟨e, he⟩
+      · rw [hs] at he; cases he
+      · exact ⟨e, by simp only [bind, Except.bind, he]⟩
+  obtain ⟨e, h1, iv', hiv', h2⟩ := mapM_error_of_mem (zcIv zc) t.es ⟨iv, hiv, hiverr⟩
+  refine ⟨e, ?_, iv', hiv', ?_⟩
+  · simp only [zcTier]; rw [h1]; rfl
+  · unfold zcIv at h2
+    cases hs : zc iv'.s with
+    | error e' => rw [hs] at h2; simp only [bind, Except.bind] at h2; cases h2; exact Or.inl rfl
+    | ok s' =>
+      rw [hs] at h2
+      cases he : zc iv'.e with
+      | error e' => rw [he] at h2; simp only [bind, Except.bind] at h2; cases h2; exact Or.inr rfl
+      | ok e' => rw [he] at h2; simp only [bind, Except.bind, pure, Except.pure] at h2; cases h2
 
 
 /-! ## 16. non-vacuity and concrete illustrations
@@ -1493,10 +1929,10 @@ example : searchList 1 exS 24 2 = .ok 13 ∧ searchList 1 exS (-8) 2 = .ok 3 := 
 example : searchList 1 exS 3 1 = .error .ArgumentError := by decide
 example : searchList 1 [3, 3, 3, 3, 3, 3] 2 2 = .error .FindZeroCrossingError := by decide
 example : Flat [3, 3, 3, 3, 3, 3] := flat_of_pos _ (by decide)
--- all-zero: the target itself; at the very end the sample before it; a recording shorter than a step: error
-example : searchList 1 [0, 0, 0, 0, 0, 0, 0, 0] 3 2 = .ok 3 := by decide
-example : searchList 1 [0, 0, 0, 0, 0, 0, 0, 0] 8 2 = .ok 7 := by decide
-example : searchList 1 [0, 0] 0 2 = .error .FindZeroCrossingError := by decide
+-- all-zero: the target itself (`all_zero_target`); the end-of-recording cases are the theorems `all_zero_end` and
+-- `incomplete_counterexample`; a recording without samples: `empty_recording_error`
+example : searchList 1 zeros8 3 2 = .ok 3 := by decide
+example : searchList 1 [] 0 2 = .error .FindZeroCrossingError ∧ searchList 1 [] (10 ^ 17) 2 = .error .FindZeroCrossingError := by decide
 -- a tie between the two sides goes to the left candidate
 example : searchList 1 [1, 0, 1, 1, 1, 0, 1] 3 4 = .ok 1 := by decide
 -- a zero in the window is preferred to a nearer sign change (reverse scan of [5, 0, 5, -1, -1])
@@ -1529,9 +1965,28 @@ example : C07.exTier.WF := C07.exTier_wf
 -- inside an interval: CollisionError
 #guard (match spliceTier C07.exTier 40 5 "NEW" with | .error .CollisionError => true | _ => false)
 
+-- an insertion point outside the span is accepted (`splice_outside_counterexample`): beyond the end, before the start
+#guard (spliceTier C07.exTier 104 5 "NEW").toOption.map (fun t => (t.es, t.lo, t.hi)) ==
+  some ([⟨10, 30, "a"⟩, ⟨30, 60, "b"⟩, ⟨80, 90, "c"⟩, ⟨104, 109, "NEW"⟩], 0, 109)
+#guard (spliceTier C07.exTier (-8) 5 "NEW").toOption.map (fun t => (t.es, t.lo, t.hi)) ==
+  some ([⟨-8, -3, "NEW"⟩, ⟨15, 35, "a"⟩, ⟨35, 65, "b"⟩, ⟨85, 95, "c"⟩], -8, 105)
+-- the label is stripped; an empty segment raises ArgumentError
+#guard (spliceTier C07.exTier 60 5 "  NEW ").toOption.map (·.es) ==
+  some [⟨10, 30, "a"⟩, ⟨30, 60, "b"⟩, ⟨60, 65, "NEW"⟩, ⟨85, 95, "c"⟩]
+#guard (match spliceTier C07.exTier 60 0 "NEW" with | .error .ArgumentError => true | _ => false)
+
 def exTg : Tg Int := ⟨[.I C07.exTier, .P ⟨"P", [⟨20, "x"⟩, ⟨60, "y"⟩, ⟨95, "z"⟩], 0, 100⟩], some 0, some 100⟩
 
 #guard (spliceTg exTg [] "T" "NEW" 60 none 5).toOption.map (fun g => (g.names, g.hi)) == some (["T", "P"], some 105)
+-- outside the span, textgrid level: the named tier ends at 109 / starts at -8, the textgrid spans [0, 105]
+#guard (spliceTg exTg [] "T" "NEW" 104 none 5).toOption.map (fun g => (g.tiers.map (fun t => (t.lo, t.hi)), g.lo, g.hi)) ==
+  some ([(0, 109), (0, 105)], some 0, some 105)
+#guard (spliceTg exTg [] "T" "NEW" (-8) none 5).toOption.map (fun g => (g.tiers.map (fun t => (t.lo, t.hi)), g.lo, g.hi)) ==
+  some ([(-8, 105), (0, 105)], some 0, some 105)
+-- a reversed / empty replaced region: ArgumentError; unknown tier: KeyError
+#guard (match spliceTg exTg [] "T" "NEW" 60 (some 30) 5 with | .error .ArgumentError => true | _ => false)
+#guard (match spliceTg exTg [] "T" "NEW" 60 (some 60) 5 with | .error .ArgumentError => true | _ => false)
+#guard (match spliceTg exTg [] "nope" "NEW" 60 none 5 with | .error .KeyError => true | _ => false)
 #guard (spliceTg exTg [] "T" "NEW" 30 (some 60) 5).toOption.map (fun g => (g.tiers.map (·.timestamps), g.hi)) ==
   some ([[10, 30, 35, 55, 65], [20, 70]], some 75)
 -- tgBoundaries with zc = "nearest multiple of 20, halves up"
